@@ -498,10 +498,13 @@ func (r readerAtOnly) ReadAt(p []byte, off int64) (int, error) { return r.r.Read
 // sfntReadRange: sfnt.Read for every fault point in [k0, k1); returns a
 // compact observation (number of errors, first k that succeeds) and the
 // oracle's verdict.
-func sfntReadRange(file []byte, style string, k0, k1 int) (obs string, fail, sig string) {
+func sfntReadRange(file []byte, style string, k0, k1, step int) (obs string, fail, sig string) {
 	end := dataEnd(file)
 	nerr, nok, firstOK := 0, 0, -1
-	for k := k0; k < k1; k++ {
+	if step < 1 {
+		step = 1
+	}
+	for k := k0; k < k1; k += step {
 		ok, panicked, touched := sfntReadAt(file, style, k)
 		if panicked != "" {
 			if fail == "" {
@@ -570,8 +573,12 @@ func parseTabs(x vlib.Sx) ([]tab, error) {
 func RunCase(line string) (impl, fail, sig string, err error) {
 	if strings.HasPrefix(line, "!sfntread ") {
 		fs := strings.Fields(line)
-		if len(fs) != 5 {
-			return "", "", "", errors.New("!sfntread FONT STYLE K0 K1")
+		if len(fs) != 5 && len(fs) != 6 {
+			return "", "", "", errors.New("!sfntread FONT STYLE K0 K1 [STEP]")
+		}
+		step := 1
+		if len(fs) == 6 {
+			step, _ = strconv.Atoi(fs[5])
 		}
 		t, err := getTarget(fs[1], "Write")
 		if err != nil {
@@ -579,7 +586,7 @@ func RunCase(line string) (impl, fail, sig string, err error) {
 		}
 		k0, _ := strconv.Atoi(fs[3])
 		k1, _ := strconv.Atoi(fs[4])
-		obs, fail, sig := sfntReadRange(t.file, fs[2], k0, k1)
+		obs, fail, sig := sfntReadRange(t.file, fs[2], k0, k1, step)
 		return obs, fail, sig, nil
 	}
 	if strings.HasPrefix(line, "!") {
@@ -595,6 +602,45 @@ func RunCase(line string) (impl, fail, sig string, err error) {
 	kind, _ := vlib.AsAtom(items[0])
 	switch kind {
 	case "wloop", "wloope":
+		if len(items) == 5 && kind == "wloop" {
+			// synthetic: header.Write on tables t000, t001, ... of the given lengths
+			style, _ := vlib.AsAtom(items[1])
+			hdr, _ := vlib.AsInt(items[2])
+			lens, err := atoiAll(items[3])
+			if err != nil {
+				return "", "", "", err
+			}
+			ks, err := atoiAll(items[4])
+			if err != nil {
+				return "", "", "", err
+			}
+			if hdr != 12+16*len(lens) || len(lens) == 0 {
+				return "", "", "", errors.New("wloop: header length must be 12+16*tables")
+			}
+			var ts []tab
+			for i, n := range lens {
+				ts = append(ts, tab{name: fmt.Sprintf("t%03d", i), data: bytes.Repeat([]byte{byte(i + 1)}, n)})
+			}
+			l := vlib.List{}
+			var file []byte
+			free := runWrite("none", 0, func(w io.Writer) (int64, bool, error) {
+				n, err := header.Write(w, header.ScalerTypeTrueType, mkMap(ts))
+				return n, true, err
+			})
+			file = free.w.held
+			fail, sig := "", ""
+			for _, k := range ks {
+				o := runWrite(style, k, func(w io.Writer) (int64, bool, error) {
+					n, err := header.Write(w, header.ScalerTypeTrueType, mkMap(ts))
+					return n, true, err
+				})
+				l = append(l, o.sx(false))
+				if d, s := writeOracle(o, file, k); d != "" && fail == "" {
+					fail, sig = "header.Write/"+style+": "+d, s
+				}
+			}
+			return vlib.Str(l), fail, sig, nil
+		}
 		if len(items) != 7 {
 			return "", "", "", errors.New("wloop: want 7 items")
 		}
@@ -796,16 +842,25 @@ func Gen(run *vlib.Run, seed uint64, tier string) {
 		for _, style := range readStyles {
 			t0 := time.Now()
 			defer func() { _ = t0 }()
-			step := 1024
+			// cheap styles (rejected at the directory probe): every k; styles that
+			// reach the table readers of a large font: every 61st k
+			kstep := 1
+			if len(t.file) > 20000 && (style == "sector" || style == "stream" || style == "stream-eof") {
+				kstep = 61
+			}
+			step := 1024 * kstep
 			for k0 := 0; k0 <= len(t.file)+1; k0 += step {
 				k1 := k0 + step
 				if k1 > len(t.file)+2 {
 					k1 = len(t.file) + 2
 				}
 				line := fmt.Sprintf("!sfntread %s %s %d %d", font, style, k0, k1)
-				obs, fail, sig := sfntReadRange(t.file, style, k0, k1)
+				if kstep > 1 {
+					line += fmt.Sprintf(" %d", kstep)
+				}
+				obs, fail, sig := sfntReadRange(t.file, style, k0, k1, kstep)
 				idx := run.Add(line, obs, true, "kind:read-fault", "entry:sfnt.Read", "source:"+font, "readstyle:"+style)
-				run.Hist["fault-points:read"] += k1 - k0
+				run.Hist["fault-points:read"] += (k1 - k0 + kstep - 1) / kstep
 				if fail != "" {
 					run.Fail(idx, line, fail, sig)
 				}
